@@ -263,7 +263,7 @@ func (d *segmentationDescriptor) SetComponents(value []ComponentOffset) {
 	d.components = make([]componentOffset, len(value))
 	for i := range value {
 		d.components[i].componentTag = value[i].ComponentTag()
-		d.components[i].ptsOffset = value[i].PTSOffset()
+		d.components[i].ptsOffset = value[i].PTSOffset() & 0x01ffffffff // a 33 bit field
 	}
 }
 
